@@ -33,7 +33,7 @@ GLOBAL = '_global_state'
 
 def run(ctx):
     for fn in (r1_overlay_lifetime, r2_inline_never_persistent, r3_overlay_read_before_write, r4_lookup_order,
-               r5_run_loop, r6_comments_only, r7_defaults_path, r8_break_placement, r9_inline_classification, r10_effects_at_call_time):
+               r5_run_loop, r6_comments_only, r7_defaults_path, r8_break_placement, r9_inline_classification, r10_effects_at_call_time, r11_statement_starts):
         ctx.rep.rule(fn, ctx)
 
 
@@ -784,6 +784,14 @@ def r8_break_placement(ctx):
 
 
 # ---------------------------------------------------------------------------
+def r11_statement_starts(ctx):
+    """a directive at the end of a statement affects that statement whatever its shape: the parser must know where each statement starts -- for a decorated
+    definition at its first decorator and only there (same clause as C01.R7)"""
+    from . import c01
+    from .common import run_as
+    run_as(ctx, c01.r7_decorated_statement_starts, 'C01.R7', 'C04.R11')
+
+
 def r9_inline_classification(ctx):
     """Directive.extract flags a directive as inline iff the statement text contains a line that is not a comment.  The classifying expression is
     evaluated on the finite domain of line-kind sequences (comment / code, length 1..3) and compared with that specification."""
